@@ -27,6 +27,13 @@ type c20BState struct {
 	lo     map[string]int      // base >= L
 	links  map[string]c20Link  // local rune variable -> helper result it holds (valid while the position is unchanged)
 	bycall map[*types.Var]bool // this field was last changed by a callee (no test on it since)
+	leneq  map[string]c20LenEq // local int variable == len(s) + k (valid while s and the variable are unchanged)
+}
+
+// c20LenEq: the local holds len(s)+k (`n := len(tree.expression)`, `last := len(tree.ast) - 1`).
+type c20LenEq struct {
+	s string
+	k int
 }
 
 // c20Link: the variable holds owner.expression[owner.charPos+c] or 0.
@@ -36,7 +43,7 @@ type c20Link struct {
 }
 
 func c20NewBState() *c20BState {
-	return &c20BState{facts: map[c20BKey]int{}, lo: map[string]int{}, links: map[string]c20Link{}, bycall: map[*types.Var]bool{}}
+	return &c20BState{facts: map[c20BKey]int{}, lo: map[string]int{}, links: map[string]c20Link{}, bycall: map[*types.Var]bool{}, leneq: map[string]c20LenEq{}}
 }
 
 func (s *c20BState) clone() *c20BState {
@@ -53,6 +60,9 @@ func (s *c20BState) clone() *c20BState {
 	}
 	for k, v := range s.bycall {
 		n.bycall[k] = v
+	}
+	for k, v := range s.leneq {
+		n.leneq[k] = v
 	}
 	return n
 }
@@ -96,6 +106,11 @@ func c20Meet(a, b *c20BState) *c20BState {
 	for k := range b.bycall {
 		n.bycall[k] = true
 	}
+	for k, v := range a.leneq {
+		if w, ok := b.leneq[k]; ok && w == v {
+			n.leneq[k] = v
+		}
+	}
 	return n
 }
 
@@ -103,8 +118,13 @@ func c20BEqual(a, b *c20BState) bool {
 	if a == nil || b == nil {
 		return a == b
 	}
-	if a.dead != b.dead || len(a.facts) != len(b.facts) || len(a.lo) != len(b.lo) || len(a.links) != len(b.links) || len(a.bycall) != len(b.bycall) {
+	if a.dead != b.dead || len(a.facts) != len(b.facts) || len(a.lo) != len(b.lo) || len(a.links) != len(b.links) || len(a.bycall) != len(b.bycall) || len(a.leneq) != len(b.leneq) {
 		return false
+	}
+	for k, v := range a.leneq {
+		if w, ok := b.leneq[k]; !ok || w != v {
+			return false
+		}
 	}
 	for k, v := range a.facts {
 		if w, ok := b.facts[k]; !ok || w != v {
@@ -280,6 +300,20 @@ func (b *c20Bounds) lin(fd *ast.FuncDecl, x ast.Expr) c20Lin {
 	return c20Lin{}
 }
 
+// linSt is lin with the state's `local == len(S)+k` equalities substituted: a
+// position compared with (or an index taken from) such a local reads like the
+// len expression the local was defined by.
+func (b *c20Bounds) linSt(fd *ast.FuncDecl, st *c20BState, x ast.Expr) c20Lin {
+	l := b.lin(fd, x)
+	if st == nil || !l.ok || l.lenOf != "" || l.base == "" || strings.HasPrefix(l.base, "-") {
+		return l
+	}
+	if eq, ok := st.leneq[l.base]; ok {
+		return c20Lin{lenOf: eq.s, k: l.k + eq.k, ok: true}
+	}
+	return l
+}
+
 // condFacts adds to st what `cond == truth` implies.
 func (b *c20Bounds) condFacts(fd *ast.FuncDecl, st *c20BState, cond ast.Expr, truth bool) {
 	cond = unparen(cond)
@@ -312,7 +346,7 @@ func (b *c20Bounds) condFacts(fd *ast.FuncDecl, st *c20BState, cond ast.Expr, tr
 		if !truth {
 			op = map[token.Token]token.Token{token.LSS: token.GEQ, token.LEQ: token.GTR, token.GTR: token.LEQ, token.GEQ: token.LSS, token.EQL: token.NEQ, token.NEQ: token.EQL}[op]
 		}
-		l, r := b.lin(fd, n.X), b.lin(fd, n.Y)
+		l, r := b.linSt(fd, st, n.X), b.linSt(fd, st, n.Y)
 		if !l.ok || !r.ok {
 			return
 		}
@@ -376,6 +410,17 @@ func (b *c20Bounds) condFacts(fd *ast.FuncDecl, st *c20BState, cond ast.Expr, tr
 			}
 		}
 	}
+}
+
+// isFuncLocal: the identifier denotes a variable declared inside a function body
+// (not a package-level variable, not a field).
+func (b *c20Bounds) isFuncLocal(id *ast.Ident) bool {
+	o := b.info.Defs[id]
+	if o == nil {
+		o = b.info.Uses[id]
+	}
+	v, ok := o.(*types.Var)
+	return ok && !v.IsField() && v.Pkg() != nil && v.Parent() != nil && v.Parent() != v.Pkg().Scope() && v.Parent() != types.Universe
 }
 
 // ------------------------------------------------------------ summaries
@@ -952,6 +997,11 @@ func (b *c20Bounds) dropLinks(st *c20BState, v *types.Var) {
 
 func (b *c20Bounds) killField(st *c20BState, v *types.Var) {
 	b.dropLinks(st, v)
+	for k, eq := range st.leneq {
+		if b.pathHas(eq.s, v) {
+			delete(st.leneq, k)
+		}
+	}
 	for k := range st.facts {
 		if b.pathHas(k.s, v) || b.pathHas(k.base, v) {
 			delete(st.facts, k)
@@ -982,6 +1032,11 @@ func (b *c20Bounds) killPath(st *c20BState, p string) {
 	}
 	delete(st.links, p)
 	b.dropLinks(st, b.lastFld(p))
+	for k, eq := range st.leneq {
+		if k == p || has(eq.s) || (b.lastFld(p) != nil && b.lastFld(eq.s) == b.lastFld(p)) {
+			delete(st.leneq, k)
+		}
+	}
 	// the same field reached through another path may be the same object
 	if v := b.lastFld(p); v != nil {
 		for k := range st.facts {
@@ -1017,6 +1072,9 @@ func (b *c20Bounds) shift(st *c20BState, p string, d int) {
 	}
 	delete(st.links, p)
 	b.dropLinks(st, b.lastFld(p))
+	if eq, ok := st.leneq[p]; ok {
+		st.leneq[p] = c20LenEq{eq.s, eq.k + d}
+	}
 	if fv := b.lastFld(p); fv != nil {
 		// the same field through another path may be the same object
 		for k := range st.facts {
@@ -1455,6 +1513,7 @@ func (a *c20BFn) applyCallKills(n ast.Node, st *c20BState) {
 				st.facts = map[c20BKey]int{}
 				st.lo = map[string]int{}
 				st.links = map[string]c20Link{}
+				st.leneq = map[string]c20LenEq{}
 				for v := range a.b.posFld {
 					st.bycall[v] = true
 				}
@@ -1559,7 +1618,7 @@ func (a *c20BFn) access(node ast.Node, X, i1, i2 ast.Expr, isSlice bool, root as
 	lenrel := false
 	for _, o := range []ast.Expr{i1, i2} {
 		if o != nil {
-			if l := b.lin(a.fd, o); l.ok && l.lenOf != "" {
+			if l := b.linSt(a.fd, st0, o); l.ok && l.lenOf != "" {
 				lenrel = true
 			}
 		}
@@ -1610,7 +1669,7 @@ func (a *c20BFn) access(node ast.Node, X, i1, i2 ast.Expr, isSlice bool, root as
 		und("indexed operand %s is not an access path", b.c.src(X))
 	case !isSlice:
 		site.kind = "index"
-		l := b.lin(a.fd, i1)
+		l := b.linSt(a.fd, st, i1)
 		switch {
 		case !l.ok:
 			und("index %s is not of the form position±const or len(S)−const", b.c.src(i1))
@@ -1634,7 +1693,7 @@ func (a *c20BFn) access(node ast.Node, X, i1, i2 ast.Expr, isSlice bool, root as
 		site.kind = "slice"
 		hi, lo := i2, i1
 		if hi != nil {
-			l := b.lin(a.fd, hi)
+			l := b.linSt(a.fd, st, hi)
 			switch {
 			case !l.ok:
 				skip = true // relational bound (two variables): out of scope, counted
@@ -1647,7 +1706,7 @@ func (a *c20BFn) access(node ast.Node, X, i1, i2 ast.Expr, isSlice bool, root as
 			}
 		}
 		if lo != nil {
-			l := b.lin(a.fd, lo)
+			l := b.linSt(a.fd, st, lo)
 			switch {
 			case !l.ok:
 				if hi == nil {
@@ -1848,8 +1907,13 @@ func (a *c20BFn) effects(n ast.Node, st *c20BState) {
 		b.killPath(st, p)
 		if isInt && rhs != nil && (tok == token.ASSIGN || tok == token.DEFINE) {
 			// p = len(S) - c  ⇒  p + (c-1) < len(S)
-			if l := b.lin(a.fd, rhs); l.ok && l.lenOf != "" && l.base == "" && l.k < 0 {
+			l := b.linSt(a.fd, st, rhs)
+			if l.ok && l.lenOf != "" && l.base == "" && l.k < 0 {
 				st.facts[c20BKey{l.lenOf, p}] = -l.k - 1
+			}
+			// a function-local p = len(S) + k reads as that length until S or p changes
+			if id, isId := unparen(lhs).(*ast.Ident); isId && l.ok && l.lenOf != "" && l.base == "" && b.isFuncLocal(id) {
+				st.leneq[p] = c20LenEq{l.lenOf, l.k}
 			}
 		}
 	}
